@@ -12,6 +12,7 @@ import re
 from simlib.env import SimEnv, SimDeadlock, SimBudgetExceeded, task_stacks
 from simlib.runner import Result
 from simlib import simset
+from simlib.tape import Tape
 from refs import ftp as refftp
 
 import wpull.network.pool as wpool
@@ -114,6 +115,18 @@ def gen_reply(tape, code, text, allow_multi=True):
         else:
             inner.append(c + b'-')
     eol = b'\r\n'
+    if tape.chance(1, 4, 'reply.first_empty'):
+        t = b''                                    # bare 'ddd-' first line
+        other = b'226' if c != b'226' else b'200'
+        k2 = tape.draw(4, 'reply.first_empty.k')
+        if k2 == 1:
+            inner.insert(0, other + b'-looks like the start of another reply')
+        elif k2 == 2:
+            inner.insert(0, other + b'-another code')
+            inner.append(other + b' Transfer complete (text inside a %s reply)' % c)
+        elif k2 == 3:
+            inner.append(other + b' text line with another code')
+        digits = True
     return c + b'-' + t + eol + b''.join(x + eol for x in inner) + c + b' end' + eol, True, digits
 
 
@@ -172,7 +185,7 @@ class _Control:
         if ov is not None:
             self.say(ov)
             return int(ov[:3]) if ov[:3].isdigit() else None
-        data, multi, digits = gen_reply(h.tape, code, text, allow_multi=h.multi_ok)
+        data, multi, digits = gen_reply(h.stape, code, text, allow_multi=h.multi_ok)
         if multi:
             h.r.probes['multiline_reply'] += 1
         if digits:
@@ -220,7 +233,7 @@ class _Control:
             self.data_conn = None
             self.srv.net.listen(self.srv.ip, port, lambda c: _Data(self, c))
             a = self.srv.ip.split('.')
-            style = h.tape.draw(3, 'pasv.style')
+            style = h.stape.draw(3, 'pasv.style')
             addr = '%s,%s,%s,%s,%d,%d' % (a[0], a[1], a[2], a[3], port >> 8, port & 255)
             text = ('Entering Passive Mode (%s).' % addr, 'ok (%s)' % addr.replace(',', ' , '), '=(%s)' % addr)[style]
             self.reply(v, 227, text)
@@ -234,7 +247,7 @@ class _Control:
             self.reply(v, 350, 'restarting')
         elif v in ('RETR', 'MLSD', 'LIST'):
             if v == 'MLSD' and not h.plan.get('mlsd', True):
-                self.reply(v, h.tape.choice((500, 502), 'mlsd.code'), 'not understood')
+                self.reply(v, h.stape.choice((500, 502), 'mlsd.code'), 'not understood')
                 return
             if v == 'RETR':
                 content = h.files.get(arg)
@@ -257,21 +270,21 @@ class _Control:
         self.transfers += 1
         mode = h.plan.get(('transfer', k), 'normal')
         dc = self.data_conn
-        self.reply(v + '.begin', h.tape.choice((150, 125), 'begin.code'), 'opening data connection')
+        self.reply(v + '.begin', h.stape.choice((150, 125), 'begin.code'), 'opening data connection')
         info = {'verb': v, 'mode': mode, 'len': len(content), 'sent_all': False, 'eof': False, 'ok226': False,
                 'fetch': getattr(h, 'current_fetch', None)}
         h.transfers.append(info)
         if mode == 'normal':
-            order = h.tape.draw(3, 'transfer.order')
+            order = h.stape.draw(3, 'transfer.order')
             if order == 0:          # data, EOF, then 226
                 dc.send(content)
                 dc.finish()
-                self.conn.wait(h.tape.choice((0.0, 0.05, 1.0), 'transfer.gap'))
+                self.conn.wait(h.stape.choice((0.0, 0.05, 1.0), 'transfer.gap'))
                 self.reply(v + '.end', 226, 'transfer complete')
                 h.r.probes['data_eof_before_226'] += 1
             elif order == 1:        # 226 first, data later
                 self.reply(v + '.end', 226, 'transfer complete')
-                dc.wait(h.tape.choice((0.05, 1.0, 3.0), 'transfer.gap'))
+                dc.wait(h.stape.choice((0.05, 1.0, 3.0), 'transfer.gap'))
                 dc.send(content)
                 dc.finish()
                 h.r.probes['ok226_before_data_eof'] += 1
@@ -281,20 +294,20 @@ class _Control:
                 self.reply(v + '.end', 226, 'transfer complete')
             info.update(sent_all=True, eof=True, ok226=True)
         elif mode == 'data_reset':
-            cut = h.tape.draw(len(content) + 1, 'transfer.cut')
+            cut = h.stape.draw(len(content) + 1, 'transfer.cut')
             if cut:
                 dc.send(content[:cut])
             dc.reset()
-            self.reply(v + '.end', h.tape.choice((426, 451), 'abort.code'), 'transfer aborted')
+            self.reply(v + '.end', h.stape.choice((426, 451), 'abort.code'), 'transfer aborted')
             h.r.probes['data_reset'] += 1
             h.r.faults['ftp_data_reset'] += 1
         elif mode == 'negative_completion':
-            cut = h.tape.draw(len(content) + 1, 'transfer.cut')
+            cut = h.stape.draw(len(content) + 1, 'transfer.cut')
             if cut:
                 dc.send(content[:cut])
             dc.finish()
             info['eof'] = True
-            self.reply(v + '.end', h.tape.choice((426, 451, 552), 'abort.code'), 'transfer failed')
+            self.reply(v + '.end', h.stape.choice((426, 451, 552), 'abort.code'), 'transfer failed')
             h.r.probes['negative_completion'] += 1
             h.r.faults['ftp_negative_completion'] += 1
         elif mode == 'no_completion':
@@ -305,7 +318,7 @@ class _Control:
             h.r.faults['ftp_no_completion_reply'] += 1
         elif mode == 'ok226_then_reset':
             # completion claimed but the data connection is reset mid-way
-            cut = h.tape.draw(len(content) + 1, 'transfer.cut')
+            cut = h.stape.draw(len(content) + 1, 'transfer.cut')
             self.reply(v + '.end', 226, 'transfer complete')
             if cut:
                 dc.send(content[:cut])
@@ -334,6 +347,7 @@ def gen_script(tape, faults_on):
     plan['welcome'] = WELCOMES[tape.draw(len(WELCOMES), 'welcome')]
     plan['user_230'] = tape.chance(1, 6, 'user230')
     plan['mlsd'] = not tape.chance(1, 3, 'nomlsd')
+    plan['shape_seed'] = tape.draw(1 << 20, 'shape_seed')
     if faults_on:
         for _ in range(tape.between(1, 2, 'nfaults')):
             k = tape.draw(6, 'fault.kind')
@@ -352,6 +366,7 @@ def execute(tape, r, fetches, user, pw, plan, files, seg_mode=None, vary_latency
     h.r = r
     h.tape = tape
     h.plan = plan
+    h.stape = Tape(plan.get('shape_seed', 0))      # server-side shapes: identical in every re-run of the same script
     h.files = files
     h.multi_ok = True
     h.unexpected_verbs = []
